@@ -305,34 +305,41 @@ theorem quotedBody_doubleApos (s : Text) : quotedBody (doubleApos s ++ ['\'']) =
       unfold quotedBody
       simp [hc, ih]
 
-/-- a quoted title resolves to its body *with the apostrophes still doubled* (finding D1101). -/
+theorem unApos_doubleApos (s : Text) : unApos (doubleApos s) = s := by
+  induction s with
+  | nil => rfl
+  | cons c s ih =>
+    unfold doubleApos
+    by_cases hc : c = '\''
+    · subst hc; simp only [if_true]; unfold unApos; simp [ih]
+    · simp only [hc, if_false]; unfold unApos; simp [hc, ih]
+
+/-- a quoted title resolves to the sheet name itself: the quotes dropped, doubled apostrophes un-doubled
+    (the repair of finding D1101). -/
 theorem resolveSheet_quoted (s : Text) (h : s ≠ []) :
-    resolveSheet ('\'' :: doubleApos s ++ ['\'']) = doubleApos s := by
+    resolveSheet ('\'' :: doubleApos s ++ ['\'']) = s := by
   unfold resolveSheet
   have : '\'' :: doubleApos s ++ ['\''] = '\'' :: (doubleApos s ++ ['\'']) := rfl
   rw [this, strip_quoted]
   simp only [if_true, quotedBody_doubleApos]
   have : doubleApos s ≠ [] := fun e => h ((doubleApos_eq_nil s).mp e)
-  simp [this]
+  simp [this, unApos_doubleApos]
 
-theorem resolveSheet_plain (s : Text) (h1 : '\'' ∉ s) (h2 : strip s = s) : resolveSheet s = s := by
+theorem resolveSheet_plain (s : Text) (h1 : s.head? ≠ some '\'') (h2 : strip s = s) : resolveSheet s = s := by
   unfold resolveSheet
   rw [h2]
   cases s with
   | nil => rfl
   | cons c rest =>
-    simp only [List.mem_cons, not_or] at h1
-    simp [Ne.symm h1.1]
+    have : c ≠ '\'' := by intro e; apply h1; simp [e]
+    simp [this]
 
 /-! ### `build_defined_names`: the address computed from the target text -/
 
-/-- what `resolve_sheet` makes of the sheet part. -/
-def resolvedSheet (t : Target) : Text := if t.quoted then doubleApos t.sheet else t.sheet
-
 theorem resolveSheet_sheetPart (t : Target) (hne : t.sheet ≠ [])
-    (hplain : t.quoted = false → '\'' ∉ t.sheet ∧ strip t.sheet = t.sheet) :
-    resolveSheet (sheetPart t) = resolvedSheet t := by
-  unfold sheetPart resolvedSheet
+    (hplain : t.quoted = false → t.sheet.head? ≠ some '\'' ∧ strip t.sheet = t.sheet) :
+    resolveSheet (sheetPart t) = t.sheet := by
+  unfold sheetPart
   cases hq : t.quoted with
   | true => simp only [if_true]; exact resolveSheet_quoted _ hne
   | false =>
@@ -340,10 +347,10 @@ theorem resolveSheet_sheetPart (t : Target) (hne : t.sheet ≠ [])
     exact resolveSheet_plain _ (hplain hq).1 (hplain hq).2
 
 /-- **The address `build_defined_names` computes** for the target `'Sheet'!$A$1[:$B$2]`: the `$` are
-    dropped, the sheet part is unquoted — but a quoted sheet name keeps its doubled apostrophes. -/
+    dropped and the sheet part is unquoted. -/
 theorem normAddress_target (t : Target) (hne : t.sheet ≠ []) (hd : '$' ∉ t.sheet) (hb : '!' ∉ t.sheet)
-    (hplain : t.quoted = false → '\'' ∉ t.sheet ∧ strip t.sheet = t.sheet) :
-    normAddress (Model.C11.Target.text t) = resolvedSheet t ++ '!' :: restText t := by
+    (hplain : t.quoted = false → t.sheet.head? ≠ some '\'' ∧ strip t.sheet = t.sheet) :
+    normAddress (Model.C11.Target.text t) = t.sheet ++ '!' :: restText t := by
   unfold normAddress
   simp only [filter_target t hd]
   have hsb : '!' ∉ sheetPart t := fun h => hb ((mem_sheetPart (by decide) t).mp h)
@@ -352,7 +359,6 @@ theorem normAddress_target (t : Target) (hne : t.sheet ≠ []) (hd : '$' ∉ t.s
       List.count_eq_zero.mpr (restText_no_bang t)]
   rw [if_pos hcount, rsplit1_of _ _ _ (restText_no_bang t)]
   simp only [resolveSheet_sheetPart t hne hplain]
-
 
 /-! ### `resolve_ranges`: the matrix of an area -/
 
